@@ -28,10 +28,20 @@ META = {
             "C14_sum_le_block_reward: total paid <= block reward <= capped reward (the true inequality: shares are "
             "rounded down, the total can be smaller); C14_block_reward_le_cap; C14_default_params_ok (library "
             "defaults, regenerated from the source, satisfy the bounds). For EVERY wrap function and parameter set: "
-            "C14_only_best_chain_endorsements, C14_no_endorsement_no_pay. No theorem is _partial or _refuted. The "
+            "C14_only_best_chain_endorsements, C14_no_endorsement_no_pay, and locality: C14_difficulty_only_window / "
+            "C14_payouts_only_window / C14_get_pop_payout_only_window (difficulty and payouts are functions of the "
+            "averaging-interval blocks preceding the endorsed block, getPopPayout of the delay+interval blocks below the "
+            "tip; C14_get_pop_payout_window / C14_difficulty_window: the executable truncated evaluation equals the "
+            "model on the full chain). Monotonicity of the specification: C14_share_monotone_weight / _reward; "
+            "C14_block_reward_antitone_difficulty / C14_block_reward_monotone_score up to the start of the slope; "
+            "C14_curve_monotone_refuted: beyond the slope start the curve is not monotone for every admissible "
+            "parameter set (witness slope 1.0). No theorem is _partial. The "
             "model is executable and compared with the real calculator (pure helpers on random well-formed and "
             "degenerate parameter sets incl. the wrap regime; getPopPayout/calculatePayouts/Inner/score/difficulty on "
-            "real ALT/VBK trees built with MockMiner incl. VBK forks, ALT reorgs, duplicate payout infos); wherever "
+            "real ALT/VBK trees built with MockMiner incl. VBK forks, ALT reorgs, duplicate payout infos, sustained "
+            "endorsement histories with difficulty above the 1.0 clamp and slope start/thresholds on the reachable "
+            "score ratios; window ops: the model answers from the truncated chain only while the real calculator runs "
+            "on the full tree, with endorsed blocks below the window); wherever "
             "the side conditions hold the extracted specification is evaluated too, so a disagreement is a concrete "
             "failing input; the harness also evaluates the direct oracle (payees = endorsers on the best chain, "
             "total <= block reward) on the implementation.",
@@ -143,6 +153,9 @@ def boundary_values(r, p):
     return sorted(vs)
 
 
+SCEN_OPS = ("pay", "payat", "payin", "score", "diff", "payw", "payatw", "diffw")
+
+
 class Cases:
     """a list of lines with ids; remembers for each line the context needed to replay it alone"""
 
@@ -164,7 +177,7 @@ class Cases:
         elif op == "scen":
             self.ctx[cid] = [self.cur_par] if self.cur_par else []
             self.cur_scen = self.ctx[cid] + [text]
-        elif op.rstrip("!") in ("pay", "payat", "payin", "score", "diff"):
+        elif op.rstrip("!") in SCEN_OPS:
             self.ctx[cid] = self.cur_scen + ([self.cur_par] if self.cur_par else [])
         else:
             self.ctx[cid] = [self.cur_par] if self.cur_par else []
@@ -319,6 +332,7 @@ def gen_tree(ctx, scale):
             q = dict(base, delay=d)
             c.add(par_line(q))
             c.add("pay!")
+            c.add("payw!")
         for d in (0, 1, tip + 1, tip + 2, d0):
             c.add(par_line(dict(base, delay=d)))
             c.add("pay!")
@@ -328,6 +342,8 @@ def gen_tree(ctx, scale):
             c.add("payat! %x" % e)
             c.add("score! %x" % e)
             c.add("diff! %x" % e)
+            c.add("diffw! %x" % e)
+            c.add("payatw! %x" % e)
         bv = boundary_values(r, base)
         for e in endorsed:
             for _ in range(6):
@@ -339,14 +355,71 @@ def gen_tree(ctx, scale):
             p["delay"] = tip - (r.choice(endorsed) if endorsed else tip) + 1
             c.add(par_line(p))
             c.add("pay!")
+            c.add("payw!")
             for e in endorsed:
                 c.add("payat! %x" % e)
+    gen_history(r, c, 3 * scale)
     return c
+
+
+def gen_history(r, c, nscen):
+    """sustained endorsement histories: every block of a run of consecutive ALT blocks is endorsed 0..4 times at
+    several relative VBK heights, so the averaged difficulty leaves the 1.0 clamp and the relative score
+    score/difficulty moves across the start of the slope and the thresholds; short averaging intervals so that
+    endorsed blocks lie BELOW the window; slope start / thresholds of extra parameter sets are put on the small
+    rationals k/m that integer scores over averaged difficulties produce"""
+    for _ in range(nscen):
+        ki = r.choice([2, 3, 4, 5, 5, 7])
+        settle = r.choice([6, 10, 15])
+        base = default_par(ki, settle, settle)
+        base["interval"] = r.choice([1, 2, 3, 5])
+        c.add(par_line(base))
+        h = r.range(1, 4)
+        toks = ["a%d" % h]
+        endorsed = []
+        pool = [r.range(1, 9) for _ in range(3)]
+        for _ in range(r.range(8, 13)):
+            k = r.choice([0, 1, 1, 2, 2, 3, 4])
+            if k:
+                endorsed.append(h)
+                for _ in range(k):
+                    toks.append("e%d.%d" % (h, r.choice(pool)))
+                toks.append("v%d" % r.choice([1, 1, 2, 12, 13]))
+                if r.chance(1, 3):
+                    toks.append("e%d.%d" % (h, r.choice(pool)))
+                    toks.append("v%d" % r.choice([1, 2, 12, 13]))
+            toks.append("a1")
+            h += 1
+        tip = h + settle - 1
+        toks.append("a%d" % (settle - 1))
+        c.add("scen " + " ".join(toks))
+        for e in endorsed:
+            c.add(par_line(dict(base, delay=tip - e + 1)))
+            c.add("pay!")
+            c.add("payw!")
+        c.add(par_line(base))
+        for e in sorted(set(endorsed + [x + 1 for x in endorsed])):
+            c.add("diff! %x" % e)
+            c.add("diffw! %x" % e)
+            c.add("payat! %x" % e)
+            c.add("payatw! %x" % e)
+        for _ in range(4):
+            q = dict(base, interval=r.choice([1, 2, 3, 4, 5, 50]), rounds=r.range(2, 5))
+            q["start"] = r.choice([0.5, 2.0 / 3, 0.75, 1.0, 1.0, 4.0 / 3, 1.5])
+            q["thrN"] = q["start"] + r.choice([0.0, 0.25, 0.5, 1.0, 1.5])
+            q["thrK"] = q["start"] + r.choice([0.0, 0.5, 1.0, 2.0])
+            q["kround"] = r.below(4)
+            q["flatround"] = r.below(q["rounds"])
+            for e in endorsed:
+                c.add(par_line(dict(q, delay=tip - e + 1)))
+                c.add("pay!")
+                c.add("payw!")
+                c.add("diffw! %x" % e)
 
 
 # ---------------------------------------------------------------- in-Coq cross-check of the extraction
 XLOG = []     # (id, op, args, parameter line | None, scenario line | None, answer) of the model's cases of this run
-XC_REQUIRES = "Rewards.BigDecDefs Rewards.CalcDefs Rewards.SpecDefs Rewards.BoundsDefs"
+XC_REQUIRES = "Rewards.BigDecDefs Rewards.CalcDefs Rewards.SpecDefs Rewards.BoundsDefs Rewards.WindowDefs"
 XC_SKIPPED = ["par", "scen", "conv"]    # state-setting / echo lines of the driver: no model function is called
 # encoders + the driver's own glue (ocaml/Rewards_driver.ml: at_height, the SPEC-MISMATCH tests) restated in Gallina
 XC_PREAMBLE = """
@@ -389,6 +462,10 @@ Definition x_score (p : Params) (c : list Block) (h : Z) : list Z :=
 Definition x_diff (p : Params) (c : list Block) (h : Z) : list Z :=
   let prevs := snd (x_at h c) in let r := difficulty256 p prevs in
   xo_z r ++ [xc_b (match r with Ok v => params_okb p && chain_okb prevs && negb (spec_difficulty p prevs =? v) | _ => false end)].
+Definition x_diffw (p : Params) (c : list Block) (h : Z) : list Z := xo_z (difficulty_win256 p (snd (x_at h c))).
+Definition x_payatw (p : Params) (c : list Block) (h : Z) : list Z :=
+  let '(b, prevs) := x_at h c in let r := calc_payouts_win256 p b prevs in xo_m r ++ [xc_b (x_mis_pay p b (window p prevs) r)].
+Definition x_payw (p : Params) (c : list Block) : list Z := xo_m (get_pop_payout_win256 p c).
 Definition x_pardefault : list Z :=
   let p := default_params in
   [p_ki p; p_settle p; p_delay p; p_kround p; p_rounds p; p_flatround p; xc_b (p_useflat p); p_interval p;
@@ -448,16 +525,16 @@ def xc_expected(op, ans):
     vals = [x for x in r[1:] if not x.startswith("SPEC-MISMATCH") and x not in ("payees", "amounts", "outcome", "not-enough-blocks")]
     if op in ("br", "score", "diff"):
         return [tag] + [X.unhex(v) for v in vals] + mis
-    if op in ("mr", "round", "mult"):
+    if op in ("mr", "round", "mult", "diffw"):
         return [tag] + [X.unhex(v) for v in vals]
-    if op in ("pay", "payat", "payin"):
+    if op in ("pay", "payat", "payin", "payw", "payatw"):
         e = [tag]
         if tag == 0:
             e.append(len(vals))
             for kv in vals:
                 k, v = kv.split("=")
                 e += [X.unhex(k), X.unhex(v)]
-        return e + (mis if op != "payin" else [])
+        return e + (mis if op not in ("payin", "payw") else [])
     if op == "bdops":
         add, sub, mul, div, cmp, fi, fd, of = vals
         return [X.unhex(add), X.unhex(sub), X.unhex(mul)] + ([1] if div == "throw" else [0, X.unhex(div)]) + \
@@ -483,7 +560,7 @@ def run_xcheck(ctx, want=220):
         return names[(kind, key)]
     for cid, op, a, par, scen, ans in smp:
         exp = xc_expected(op, ans)
-        if exp is None or (op in ("pay", "payat", "payin", "score", "diff") and scen is None):
+        if exp is None or (op in SCEN_OPS and scen is None):
             continue       # MODEL-ERROR lines (no block at that height, malformed input): nothing was computed
         p = "default_params" if par is None else shared("p", tuple(par), lambda: xc_params(par))
         c = None if scen is None else shared("c", tuple(scen), lambda: xc_chain(scen))
@@ -497,7 +574,10 @@ def run_xcheck(ctx, want=220):
                 "payat": lambda: "x_payat %s %s %s" % (p, c, H(a[0])),
                 "payin": lambda: "x_payin %s %s %s %s %s" % (p, c, H(a[0]), H(a[1]), H(a[2])),
                 "score": lambda: "x_score %s %s %s" % (p, c, H(a[0])),
-                "diff": lambda: "x_diff %s %s %s" % (p, c, H(a[0]))}.get(op)
+                "diff": lambda: "x_diff %s %s %s" % (p, c, H(a[0])),
+                "diffw": lambda: "x_diffw %s %s %s" % (p, c, H(a[0])),
+                "payatw": lambda: "x_payatw %s %s %s" % (p, c, H(a[0])),
+                "payw": lambda: "x_payw %s %s" % (p, c)}.get(op)
         if term is None:
             ctx.broken.append("xcheck:Rewards: no Gallina rendering for op %s" % op)
             continue
@@ -587,6 +667,40 @@ def view_stats(cov, view):
                 cov["max_relative_vbk_height"] = max(cov["max_relative_vbk_height"], max(hsv) - min(hsv))
 
 
+def window_stats(lines, ires, mres):
+    """window ops (model evaluated on the truncated chain vs the real calculator on the full tree): how many, in how
+    many an endorsed block with a counted endorsement lies below the window (the truncation removes something that
+    would change the result if it were read), how many difficulties are above the 1.0 clamp"""
+    st = {"ops": 0, "endorsed_block_below_window": 0, "agree": 0, "difficulty_above_min": 0, "nonempty_payout": 0}
+    interval = delay = 0
+    tip, hs = 0, []
+    for cid, text in lines:
+        t = text.split()
+        op = t[0].rstrip("!")
+        if op == "par":
+            delay, interval = int(t[3], 16), int(t[8], 16)
+        elif op == "scen":
+            v = ires.get(cid, "").split()
+            tip = ([int(x[1:], 16) for x in v if x[0] == "T"] or [0])[0]
+            hs = [int(x[1:].split(":")[0], 16) for x in v if x[0] == "B" and
+                  any(not e.endswith(".x") for e in x.split(":")[1].split(","))]
+        elif op in ("diffw", "payatw", "payw"):
+            st["ops"] += 1
+            e = int(t[1], 16) if op != "payw" else tip - (delay - 1)
+            if op == "payw" and delay < 1:
+                continue
+            if any(h < e - interval for h in hs):
+                st["endorsed_block_below_window"] += 1
+            m = mres.get(cid, "")
+            if m == ires.get(cid):
+                st["agree"] += 1
+            if op == "diffw" and m.startswith("ok ") and int(m.split()[1], 16) > ONE:
+                st["difficulty_above_min"] += 1
+            if op != "diffw" and "=" in m:
+                st["nonempty_payout"] += 1
+    return st
+
+
 def is_tree(lines):
     return any(l.split(" ", 1)[0] == "scen" for l in lines)
 
@@ -655,6 +769,7 @@ def run(ctx):
             for b in builderr[:3]:
                 ctx.broken.append("corr:scenario-build: " + b)
             ctx.cov["tree_nonempty_payouts"] = sum(1 for v in mres.values() if "=" in v)
+            ctx.cov["window"] = window_stats(cs.lines, ires, mres)
         byid = dict(cs.lines)
         for cid, text in cs.lines:
             if cid in skipped:
@@ -693,6 +808,10 @@ def run(ctx):
                 ctx.cov.get("tree_nonempty_payouts", 0) == 0:
             ctx.broken.append("coverage: generated scenarios exercised no off-chain endorsement / duplicate payout "
                               "info / non-empty payout")
+        ws = ctx.cov.get("window", {})
+        if not (ws.get("endorsed_block_below_window") and ws.get("difficulty_above_min") and ws.get("nonempty_payout")):
+            ctx.broken.append("coverage: no window op with an endorsed block below the window / a difficulty above "
+                              "the minimum / a non-empty payout")
 
     # direct oracle failures on the implementation: concrete failing inputs
     for lines, t in oracle[:3]:
